@@ -19,5 +19,14 @@ Theorem C06_src_handlers_are_exec_op :
     = exec_op St Ev Act Ck T Name play save clock mk_act star ev_name ev_delay name_eqb tzero tpos tis0 o st b.
 Proof. exact @handlers_drive_exec_op. Qed.
 
+(* what RESOLVE and CAST elapse: the delay of the first event carrying a positive delay, zero exactly when there is none *)
+Theorem C06_src_next_elapse_time_is_the_first_positive_delay :
+  forall (Ev T : Type) (ev_delay : Ev -> option T) (tzero : T) (tpos : T -> bool) (evs : list Ev),
+    (no_positive_delay Ev T ev_delay tpos evs /\ src_get_next_elapse_time Ev T ev_delay tzero tpos evs = tzero) \/
+    (exists pre e post t, evs = pre ++ e :: post /\ no_positive_delay Ev T ev_delay tpos pre /\ ev_delay e = Some t /\ tpos t = true /\
+                          src_get_next_elapse_time Ev T ev_delay tzero tpos evs = t).
+Proof. exact @src_next_elapse_spec. Qed.
+
 Print Assumptions C06_src_next_elapse_time.
 Print Assumptions C06_src_handlers_are_exec_op.
+Print Assumptions C06_src_next_elapse_time_is_the_first_positive_delay.
